@@ -2,6 +2,7 @@ package main
 
 import (
 	"bytes"
+	"context"
 	"crypto/sha256"
 	"fmt"
 	"io"
@@ -9,11 +10,13 @@ import (
 	"path/filepath"
 	"strings"
 	"syscall"
+	"time"
 	"unsafe"
 
 	"github.com/criyle/go-sandbox/container"
 	"github.com/criyle/go-sandbox/pkg/memfd"
 	"github.com/criyle/go-sandbox/pkg/mount"
+	"github.com/criyle/go-sandbox/runner"
 	"golang.org/x/sys/unix"
 )
 
@@ -93,18 +96,34 @@ func runC13(res *Result, d *Driver, tier string, seed uint64) {
 					if rounds > 2 && rng.Chance(50) {
 						continue
 					}
-					rr, out := env.runProbe(RunSpec{Script: sc}, false)
+					// every way the planting run can end: on its own (synchronised before or after the exec), refused by the
+					// caller's synchronisation callback while it is already running and writing, or cancelled
+					variant := rng.Intn(5)
+					var rr runner.Result
+					var out string
+					switch variant {
+					case 2:
+						rr, out = env.runProbe(RunSpec{Script: sc + ";sleep 5000", SyncFunc: func(int) error { time.Sleep(400 * time.Millisecond); return fmt.Errorf("refused by the caller") }}, true)
+					case 3:
+						ctx, cancel := context.WithTimeout(context.Background(), 400*time.Millisecond)
+						rr, out = env.runProbe(RunSpec{Script: sc + ";sleep 5000", Ctx: ctx}, rng.Bool())
+						cancel()
+					case 1:
+						rr, out = env.runProbe(RunSpec{Script: sc, SyncFunc: func(int) error { return nil }}, true)
+					default:
+						rr, out = env.runProbe(RunSpec{Script: sc}, false)
+					}
 					_ = rr
 					planted := listDir(filepath.Join(root, m))
 					rerr := env.Reset()
 					left := listDir(filepath.Join(root, m))
 					_, inside := env.runProbe(RunSpec{Script: "sys 217 0 0 0;report cwd;exit 0"}, false)
 					_ = inside
-					key := fmt.Sprintf("%s /%s tree%d", tb.name, m, si)
+					key := fmt.Sprintf("%s /%s tree%d, the planting run %s", tb.name, m, si, []string{"ends on its own", "ends on its own (synchronised after exec)", "is refused by the synchronisation callback after exec, while it runs", "is cancelled", "ends on its own"}[variant])
 					res.Case(key+itoa(r), true, "reset-"+tb.name)
 					res.Traces++
 					var bad []string
-					if len(planted) == 0 {
+					if len(planted) == 0 && variant != 2 && variant != 3 {
 						bad = append(bad, "the tree script planted nothing (harness): "+strings.TrimSpace(out))
 					}
 					if rerr != nil {
